@@ -27,8 +27,8 @@ def cases(tier, seed):
             for w in ([wl[(pi + seed) % 7], wl[(pi + seed + 3) % 7]] if not big else wl):
                 n += 1
                 out.append(Case("plain", "c11_bulk",
-                                ["--scheduler=" + pol, "--threads=%d" % w, "--mode=" + mode, "--reps=%d" % (40 if not big else 200),
-                                 "--randmax=%d" % (1000000 if not big else 10000000), "--seed=%d" % (seed * 1000 + n)],
+                                ["--scheduler=" + pol, "--threads=%d" % w, "--mode=" + mode, "--reps=%d" % (40 if not big else 100),
+                                 "--randmax=%d" % (1000000 if not big else 4000000), "--seed=%d" % (seed * 1000 + n)],
                                 cls="%s:%s" % (mode, pol), slots=w + 1, timeout=600))
     shapes = LARGE if not big else LARGE + [2**31, 2**32, 2**33 + 7, 3 * 2**31 + 1]
     for si, sh in enumerate(shapes):
